@@ -145,6 +145,10 @@ def run(prog, rep):
                 cn = r.get("callee")
                 if cn in T.fresh or cn in ACQ_FIELD_CALLS:
                     if cn in ("p_list_append", "p_list_prepend"):
+                        # a list head kept in the object (`obj->items = p_list_append (obj->items, x)`): the nodes belong to the object
+                        a0 = strip_casts(r["args"][0]) if r.get("args") else None
+                        if a0 is not None and a0["k"] == "member" and a0["field"] == l["field"] and root_var(a0) == root_var(l):
+                            owned.setdefault(l["rec"], {}).setdefault(l["field"], []).append((fn.name, cn + " (list nodes)", line(n)))
                         continue
                     owned.setdefault(l["rec"], {}).setdefault(l["field"], []).append((fn.name, cn, line(n)))
         # fd fields: field assigned from a local holding socket()/accept()
@@ -173,7 +177,36 @@ def run(prog, rep):
                        "%s.%s (filled from %s in %s) is released by %s" % (rec, fld, sites[0][1], sites[0][0], fr.name) if ok else
                        "%s.%s is filled from %s (in %s, line %d) but %s never releases it: every object of this type leaks it" % (rec, fld, sites[0][1], sites[0][0], sites[0][2], fr.name),
                        fr.loc[0])
-    rep.floor("C20.1", 20, "owned fields over the library object types")
+    # ... and the object itself: a free function hands its (non-NULL) argument to p_free on every path - directly or through a
+    # function of the unit that does so on all of its paths.  A guard that returns early for anything but NULL, or a body that
+    # forgets the final p_free, leaks one object per call
+    nself = 0
+    for un, u in sorted(prog.units.items()):
+        if un in INFORMATIONAL:
+            continue
+        memo = {}
+        for fn in sorted(u.functions.values(), key=lambda f: f.loc[0]):
+            if not (fn.name.endswith("_free") or fn.name.endswith("_free_internal")) or not fn.params:
+                continue
+            t = u.types[fn.params[0]["t"]]
+            if t.get("k") != "ptr" or u.types[t["p"]].get("k") != "rec":
+                continue
+            if not any(c.get("callee") == "p_free" for g in u.functions.values() for (b, i, c) in g.calls()):
+                continue
+            missing = self_release(u, fn, 0, memo)
+            if missing is None:
+                # releases its argument on no path at all: a destructor that forgot the object if it releases the object's members,
+                # otherwise not a destructor of this object
+                p0_ = fn.param_names()[0]
+                mem = [c for (b, i, c) in fn.calls() if c.get("callee") in ("p_free", "p_list_free") and c.get("args") and strip_casts(c["args"][0])["k"] == "member" and root_var(c["args"][0]) == p0_]
+                if not mem:
+                    continue
+                missing = [fn.loc[0]]
+            nself += 1
+            rep.ob("C20.1", fn, "self", not missing, "%s hands its non-NULL argument to p_free on every path" % fn.name if not missing else
+                   "line %d: %s returns without having released the object it was given (%s is not known to be NULL on this path): every call leaks one object" % (
+                       missing[0], fn.name, fn.param_names()[0]), missing[0] if missing else fn.loc[0])
+    rep.floor("C20.1", 20 + 2 + 30, "owned fields over the library object types, and the objects themselves")
 
     # ---- C20.3 (shared with C07.5) --------------------------------------------------------------
     from rules import C07
@@ -287,6 +320,75 @@ def run(prog, rep):
     rep.floor("C20.5", 4)
 
 
+def self_release(u, fn, k, memo):
+    """Lines of the returns of fn that are reached with parameter k possibly non-NULL and not handed to p_free (or to a unit function that
+    releases it on every path); None when no path releases it at all."""
+    key = (fn.name, k)
+    if key in memo:
+        return memo[key]
+    memo[key] = []           # recursion: assume it releases
+    ps = fn.param_names()
+    if k >= len(ps):
+        memo[key] = None
+        return None
+    p0 = ps[k]
+    missing, hits = [], [0]
+
+    def on_stmt(st, b, i, stmt):
+        facts, freed, names = st
+        # locals that hold the argument (`for (next = cur = list; ...)`), innermost assignment first
+        for n in reversed(list(walk(stmt))):
+            if n["k"] == "asg" and n.get("op") == "=" and strip_casts(n["l"]) is not None and strip_casts(n["l"])["k"] == "ref":
+                r = strip_casts(n["r"])
+                if r is not None and r["k"] == "asg":
+                    r = strip_casts(r["l"])
+                tgt = strip_casts(n["l"])["name"]
+                if r is not None and r["k"] == "ref" and r["name"] in names:
+                    names = names | {tgt}
+                elif tgt in names and not freed:
+                    names = names - {tgt}
+            elif n["k"] == "decl" and n.get("init") is not None:
+                r = strip_casts(n["init"])
+                if r is not None and r["k"] == "ref" and r["name"] in names:
+                    names = names | {n["name"]}
+        for c in calls(stmt):
+            for ai, a in enumerate(c.get("args", ())):
+                a2 = strip_casts(a)
+                if a2 is None or a2["k"] != "ref":
+                    continue
+                if a2["name"] not in names:
+                    continue
+                cn = c.get("callee")
+                if cn == "p_free" and ai == 0:
+                    freed = True
+                    hits[0] += 1
+                elif cn in u.functions and cn != fn.name and self_release(u, u.functions[cn], ai, memo) == []:
+                    freed = True
+                    hits[0] += 1
+        if stmt["k"] == "ret":
+            if not freed and guards.lookup(facts, p0) != 0:
+                missing.append(line(stmt))
+            return []
+        return [(guards.transfer(facts, stmt), freed, names)]
+
+    def on_edge(st, b, to, on):
+        f2 = guards.edge_assume(st[0], b, on)
+        if f2 is not None and not st[1] and any(fk == p0 and fop == "!=" and fv == 0 for (fk, fop, fv) in f2) and any(guards.lookup(f2, x) == 0 for x in st[2]):
+            return None          # a local that still holds the (non-NULL) argument cannot test NULL
+        return None if f2 is None else (f2, st[1], st[2])
+    try:
+        fl = Flow(fn, [(guards.EMPTY, False, frozenset([p0]))], on_stmt, on_edge, max_states=20000).run()
+    except AnalysisBroken:
+        memo[key] = None
+        return None
+    # falling off the end of a void function
+    for (parent, (facts, freed, names_)) in fl.exit_states():
+        if not freed and guards.lookup(facts, p0) != 0:
+            missing.append(fn.d.get("end", fn.loc)[0] if isinstance(fn.d.get("end"), list) else fn.loc[0])
+    memo[key] = None if hits[0] == 0 else sorted(set(missing))
+    return memo[key]
+
+
 DESC_CLOSERS = ("p_sys_close", "close", "closesocket")
 
 
@@ -346,6 +448,10 @@ def released_fields(u, fr, T, seen=None):
 RENAME_LOCALS = ['src/pdir-posix.c', 'src/pshm-posix.c', 'src/psemaphore-posix.c', 'src/plibraryloader-posix.c']
 
 SELFTEST = [
+    dict(id="socket-address-free-inverted-guard", file="src/psocketaddress.c", expect="C20.1",
+         old="p_socket_address_free (PSocketAddress *addr)\n{\n\tif (P_UNLIKELY (addr == NULL))", new="p_socket_address_free (PSocketAddress *addr)\n{\n\tif (P_UNLIKELY (addr != NULL))"),
+    dict(id="ini-parameter-free-forgets-object", file="src/pinifile.c", expect="C20.1",
+         old="\tp_free (param->value);\n\tp_free (param);", new="\tp_free (param->value);"),
     dict(id="dir-free-forgets-orig-path", file="src/pdir-posix.c", expect="C20.1",
          old="\tp_free (dir->path);\n\tp_free (dir->orig_path);\n\tp_free (dir);", new="\tp_free (dir->path);\n\tp_free (dir);"),
     dict(id="semaphore-free-forgets-key", file="src/psemaphore-posix.c", expect="C20.1",
